@@ -238,7 +238,7 @@ Definition number_of_i64 (cf : cfg) (i : Z) : num :=
 Definition number_from_string (cf : cfg) (s : bytes) : vres value :=
   match number_from_str cf s with
   | Ok n => VOk (VNum n)
-  | Err _ _ => verr MCustom
+  | Err _ i => let '(line, col) := pos_of s i in VErr (Message MCustom) line col   (* Error::custom re-reads " at line L column C" of the inner error (error.rs make_error) *)
   | OutOfFuel => VFuel
   | Panic => VPanic
   end.
